@@ -345,7 +345,9 @@ fn deep_reads(rep: &mut Rep) {
         for &size in sizes {
             for cap in [1usize, 2, 4096, usize::MAX] {
                 // packets of megabytes arrive byte by byte in the thorough tier only
-                if cap <= 2 && size > 1_000_000 && (rep.quick() || (rep.profile == "dev" && size > 2_200_000)) {
+                // (byte by byte at most 2.1 MB: the mock's own bound of 4 000 000 transport calls within one poll, which is what
+                // recognises a client spinning on the transport, must stay out of reach of a legitimate packet)
+                if cap <= 2 && size > 1_000_000 && (rep.quick() || size > 2_200_000) {
                     continue;
                 }
                 let id = format!("deep:{phase:?}:{size}:{cap}");
@@ -368,8 +370,14 @@ fn deep_reads(rep: &mut Rep) {
                         SPacket::Connack { session_present: false, reason: 0, props }
                     }
                 };
-                su.sim.reader.0.borrow_mut().default_cap = cap;
-                su.sim.feed_packet(&pkt);
+                su.sim.reader.0.borrow_mut().default_cap = if cap == 4096 { [1000usize, 700, 333, 4096][(size / 7 + phase as usize) % 4] } else { cap };
+                // a small packet directly behind the large one, available with its last bytes (in the running phase: a PINGRESP
+                // for the ping that is waiting; while connecting nothing may follow the CONNACK but what run() will read)
+                let mut bytes = pkt.encode();
+                if phase == Phase::Running {
+                    bytes.extend(SPacket::Pingresp.encode());
+                }
+                su.sim.feed(&bytes);
                 su.sim.settle();
                 rep.add("evaluations", 1);
                 rep.add("deep_read_cases", 1);
@@ -387,7 +395,9 @@ fn deep_reads(rep: &mut Rep) {
                             su.sim.drain_stream(st);
                             su.sim.streams[st].items.len()
                         });
-                        n == Some(1) && su.sim.run_result().is_none()
+                        // the ping of the set-up (last operation started there) has its answer behind the large packet
+                        let ping_done = su.sim.ops.last().and_then(|o| o.out.as_ref()).map(|o| o.is_ok()).unwrap_or(false);
+                        n == Some(1) && su.sim.run_result().is_none() && ping_done && su.sim.unread() == 0
                     }
                     _ => matches!(su.sim.last_ctx_result(su.call), Some(CtxOut::Conn(ConnOut::Connack(_)))),
                 };
